@@ -2,7 +2,9 @@ package rules
 
 import (
 	"fmt"
+	"go/ast"
 	"go/token"
+	"go/types"
 	"strings"
 
 	"golang.org/x/tools/go/ssa"
@@ -330,3 +332,133 @@ func c12r4(rc *core.RC) {
 }
 
 func fieldNameOfSSA(fa *ssa.FieldAddr) string { return core.FieldNameOf(fa) }
+
+// ---- C12.R5 the stream window only moves forward or to a fresh allocation ----
+
+// Strings and keys decoded in stream mode may alias the window's memory (zero-copy). Earlier
+// results stay intact because the window is only ever re-sliced forward (s.buf = s.buf[k:]) or
+// replaced by a new allocation. Any other value assigned to Stream.buf (a kept reference to the
+// start of the allocation, a pooled slice) lets a later read overwrite bytes that earlier
+// results still point at.
+func c12r5(rc *core.RC) {
+	p := rc.P
+	pk := p.Pkg("decoder")
+	n := 0
+	check := func(fn string, info *types.Info, body *ast.BlockStmt, rhs ast.Expr, pos token.Pos, seq int) {
+		n++
+		key := fmt.Sprintf("%s/window-assign#%d", fn, seq)
+		rhs = core.Unparen(rhs)
+		// follow a local with a single definition
+		if id, ok := rhs.(*ast.Ident); ok {
+			if v, ok := info.Uses[id].(*types.Var); ok && body != nil {
+				le := &core.LinearEval{Info: info, Body: body}
+				_ = le
+				var def ast.Expr
+				k := 0
+				ast.Inspect(body, func(m ast.Node) bool {
+					if as, ok := m.(*ast.AssignStmt); ok {
+						for i, l := range as.Lhs {
+							if core.ObjOf(info, l) == v && i < len(as.Rhs) {
+								k++
+								def = as.Rhs[i]
+							}
+						}
+					}
+					return true
+				})
+				if k == 1 && def != nil {
+					rhs = core.Unparen(def)
+				}
+			}
+		}
+		// append(append(base, …), …): what the innermost base is
+		base := rhs
+		for {
+			c, ok := core.Unparen(base).(*ast.CallExpr)
+			if !ok || !core.IsBuiltin(info, c, "append") || len(c.Args) == 0 {
+				break
+			}
+			base = c.Args[0]
+		}
+		if base != rhs {
+			switch b := core.Unparen(base).(type) {
+			case *ast.CompositeLit:
+				rc.OK(key, pos, "a fresh copy (append onto a new slice)")
+				return
+			case *ast.SliceExpr:
+				if f := core.FieldOf(info, b.X); f != nil && f.Name() == "buf" && b.Low == nil && b.High != nil {
+					rc.OK(key, pos, "an in-place splice that keeps the window's prefix `%s` and rewrites only the token being decoded", core.Src(p.Fset, b))
+					return
+				}
+			}
+		}
+		switch x := rhs.(type) {
+		case *ast.CallExpr:
+			if core.IsBuiltin(info, x, "make") {
+				rc.OK(key, pos, "a fresh allocation")
+				return
+			}
+		case *ast.SliceExpr:
+			if f := core.FieldOf(info, x.X); f != nil && f.Name() == "buf" && x.Low != nil {
+				rc.OK(key, pos, "the window is re-sliced forward")
+				return
+			}
+		}
+		rc.Bad(key, pos, "Stream.buf receives `%s`: neither a fresh allocation nor a forward re-slice of the window. Memory in front of the window is still referenced by strings decoded earlier (zero-copy); moving the window back onto it lets the next read overwrite them", core.Src(p.Fset, rhs))
+	}
+	for _, fd := range p.Funcs("decoder") {
+		if fd.Body == nil {
+			continue
+		}
+		info := p.Info(fd)
+		fn := p.FuncName(fd)
+		seq := 0
+		ast.Inspect(fd.Body, func(m ast.Node) bool {
+			switch x := m.(type) {
+			case *ast.AssignStmt:
+				for i, l := range x.Lhs {
+					f := core.FieldOf(info, l)
+					if f == nil || f.Name() != "buf" || i >= len(x.Rhs) {
+						continue
+					}
+					if recv, ok := f.Pkg().Scope().Lookup("Stream").(*types.TypeName); !ok || !fieldOfType(recv, f) {
+						continue
+					}
+					seq++
+					rc.Touch(fn)
+					check(fn, info, fd.Body, x.Rhs[i], x.Pos(), seq)
+				}
+			case *ast.CompositeLit:
+				tv := info.Types[x]
+				if nt, ok := tv.Type.(*types.Named); ok && nt.Obj().Name() == "Stream" && nt.Obj().Pkg() == pk.Types {
+					for _, el := range x.Elts {
+						if kv, ok := el.(*ast.KeyValueExpr); ok {
+							if id, ok := kv.Key.(*ast.Ident); ok && id.Name == "buf" {
+								seq++
+								rc.Touch(fn)
+								check(fn, info, fd.Body, kv.Value, kv.Pos(), seq)
+							}
+						}
+					}
+				}
+			}
+			return true
+		})
+	}
+	if n < 3 {
+		rc.Unknown("decoder/stream-window-assignments", token.NoPos, "found %d assignments of Stream.buf (NewStream, readBuf ×2 expected)", n)
+	}
+}
+
+func fieldOfType(tn *types.TypeName, f *types.Var) bool {
+	st, ok := tn.Type().Underlying().(*types.Struct)
+	if !ok {
+		return false
+	}
+	for i := 0; i < st.NumFields(); i++ {
+		if st.Field(i) == f {
+			return true
+		}
+	}
+	return false
+}
